@@ -735,6 +735,9 @@ def run(ctx):
     r14b(ctx)
     r14d(ctx)
     r14e(ctx)
+    # a named range is found under its table name only if the address writer and reader agree on how that name is quoted (rule shared with C19)
+    from .c19 import r19b
+    r19b(ctx)
 
 
 from ..selftest import Seed, unparse_seed  # noqa: E402
